@@ -386,6 +386,13 @@ theorem merge_member_sets_from_source {s : HG} (h : Inv s) (rename : Rename) (ru
     · obtain ⟨f, hf, hm⟩ := hn it hit
       exact ⟨f, hf, fun x => by rw [h2 x, hm]⟩
 
+/-- **`merge_duplicate_edges(rename="new")` that returns (with or without the union warning) leaves no two edges with
+    the same member set** — the new IDs come from the counter, so no re-addition is refused -/
+theorem merge_new_no_duplicates {s : HG} (h : Inv s) (rule : MergeRule) (mult : Option String)
+    (r : HG × Outcome) (hr : mergeDuplicateEdges s .new rule mult = some r) (hok : r.2.isErr = false) :
+    ∀ e ∈ r.1.edges, ∀ f ∈ r.1.edges, e ≠ f → ¬ sameSet (r.1.mem e) (r.1.mem f) = true :=
+  merge_new_no_duplicates_aux h rule mult r hr hok
+
 /-! ### degree- and size-preserving moves -/
 
 /-- an accepted double edge swap keeps every degree, every size, all IDs (in order) and all attributes;
